@@ -315,6 +315,7 @@ func GetParam(ctx *Task, expr *ast.CallExpr, params []*Param, i int) (any, *errc
 			if errReg != nil {
 				return nil, NewRunError(ctx, errReg.Error(), p.StartPos())
 			}
+			ctx.Regs.Reset()
 			ret = append(ret, v.V)
 		}
 		return ret, nil
@@ -335,6 +336,7 @@ func GetParam(ctx *Task, expr *ast.CallExpr, params []*Param, i int) (any, *errc
 		if errReg != nil {
 			return nil, NewRunError(ctx, errReg.Error(), expr.ParamNormalized[i].StartPos())
 		}
+		ctx.Regs.Reset()
 		return v.V, nil
 	}
 }
